@@ -55,13 +55,13 @@ Fixpoint running (acc : Z) (counts : list Z) : list Z :=
   match counts with [] => [] | c :: r => (acc + c - 1) :: running (acc + c) r end.
 Definition sum (l : list Z) : Z := fold_right Z.add 0 l.
 
-Lemma end_pts_loop_spec : forall m counts encs acc rest,
+Lemma end_pts_loop_spec : forall counts encs acc rest,
   Forall2 encodes_255 encs counts -> Forall (fun c => 1 <= c) counts ->
   0 <= acc -> acc + sum counts < 65536 ->
-  end_pts_loop m (length counts) (concat encs ++ rest) acc =
+  end_pts_loop (length counts) (concat encs ++ rest) acc =
     Ok (running acc counts, acc + sum counts, rest).
 Proof.
-  intros m counts encs acc rest H. revert acc rest.
+  intros counts encs acc rest H. revert acc rest.
   induction H as [|e c encs counts He _ IH]; intros acc rest Hpos Hacc Hsum.
   - cbn [length end_pts_loop running sum fold_right concat app]. feq.
   - inversion Hpos as [|? ? Hc Hpos']; subst. cbn [sum fold_right] in Hsum. fold (sum counts) in Hsum.
@@ -69,8 +69,8 @@ Proof.
     { clear - Hpos'. induction Hpos' as [|x l Hx _ IHl]; cbn [sum fold_right]; [lia|]. fold (sum l). lia. }
     cbn [length end_pts_loop concat]. rewrite <- app_assoc.
     rewrite (packed_u16_all_encodings _ _ _ He). cbn [bind].
-    unfold m_add. rewrite m_ck_in by (cbn; lia). cbn [bind].
-    unfold m_sub. rewrite m_ck_in by (cbn; lia). cbn [bind].
+    replace (acc + c <=? 65535) with true by lia. cbn [bind].
+    replace (1 <=? acc + c) with true by lia. cbn [bind].
     rewrite IH by (try assumption; lia). cbn [bind running sum fold_right]. fold (sum counts).
     feq.
 Qed.
@@ -111,12 +111,12 @@ Proof.
   cbn [last]. apply IH. congruence.
 Qed.
 
-Lemma compute_end_pts_spec : forall m eps encs rest,
+Lemma compute_end_pts_spec : forall eps encs rest,
   eps <> [] -> increasing (-1) eps -> last eps 0 + 1 < 65536 ->
   Forall2 encodes_255 encs (contour_counts (-1) eps) ->
-  compute_end_pts m (concat encs ++ rest) (len eps) = Ok (eps, last eps 0 + 1, rest).
+  compute_end_pts (concat encs ++ rest) (len eps) = Ok (eps, last eps 0 + 1, rest).
 Proof.
-  intros m eps encs rest Hne Hinc Hlast H. unfold compute_end_pts.
+  intros eps encs rest Hne Hinc Hlast H. unfold compute_end_pts.
   replace (Z.to_nat (len eps)) with (length (contour_counts (-1) eps))
     by (rewrite length_counts; unfold len; lia).
   assert (last eps (-1) = last eps 0) as Hl by (apply last_nonempty; exact Hne).
@@ -144,33 +144,24 @@ Proof.
   match goal with |- context [if ?c then _ else _] => destruct c eqn:E end; lia.
 Qed.
 
-(* accumulating a delta: with overflow checks the delta itself must be an int16; a release build
-   wraps and lands on the right coordinate whatever the delta *)
-Lemma i16_accumulate : forall m prev next,
-  i16_ok prev -> i16_ok next -> (m = Debug -> i16_ok (next - prev)) ->
-  m_add m TI16 prev (to_signed 16 (next - prev)) = Ok next.
+(* accumulating a delta: the decoded delta is the true one modulo 2^16 (to_signed 16) and so is
+   the sum (i16::wrapping_add), which lands on the right coordinate whatever the delta *)
+Lemma i16_accumulate : forall prev next,
+  i16_ok prev -> i16_ok next ->
+  to_signed 16 (prev + to_signed 16 (next - prev)) = next.
 Proof.
-  intros m prev next Hp Hn Hd. unfold i16_ok in *. unfold m_add, m_ck.
-  cbn [ity_min ity_max ity_signed ity_bits]. change (2 ^ (16 - 1)) with 32768.
-  destruct m.
-  - specialize (Hd eq_refl). rewrite to_signed_small by exact Hd.
-    match goal with |- (if ?c then _ else _) = _ => replace c with true by lia end.
-    f_equal. lia.
-  - assert (to_signed 16 (prev + to_signed 16 (next - prev)) = next) as Hw.
-    { unfold to_signed. change (2 ^ 16) with 65536. change (2 ^ (16 - 1)) with 32768.
-      repeat match goal with |- context [if ?c then _ else _] => destruct c eqn:? end; lia. }
-    match goal with |- (if ?c then _ else _) = _ => destruct c eqn:E end.
-    + f_equal. rewrite <- Hw at 2. symmetry. apply to_signed_small. unfold i16_ok. lia.
-    + unfold m_cast. cbn [ity_signed ity_bits]. rewrite Hw. reflexivity.
+  intros prev next Hp Hn. unfold i16_ok in *.
+  unfold to_signed. change (2 ^ 16) with 65536. change (2 ^ (16 - 1)) with 32768.
+  repeat match goal with |- context [if ?c then _ else _] => destruct c eqn:? end; lia.
 Qed.
 
 Lemma decode_points_spec : forall m px py ps fl gl,
   encodes_points px py ps fl gl -> forall rest,
-  i16_ok px -> i16_ok py -> Forall point_ok ps -> (m = Debug -> deltas_ok px py ps) ->
+  i16_ok px -> i16_ok py -> Forall point_ok ps ->
   decode_points m fl (gl ++ rest) px py = Ok (ps, rest).
 Proof.
   intros m px py ps fl gl H.
-  induction H as [px py|px py p ps i bytes fl gl Ht _ IH]; intros rest Hpx Hpy Hok Hd.
+  induction H as [px py|px py p ps i bytes fl gl Ht _ IH]; intros rest Hpx Hpy Hok.
   - reflexivity.
   - inversion Hok as [|? ? Hp Hok']; subst. destruct Hp as [Hx Hy].
     pose proof Ht as (Hi & _).
@@ -182,17 +173,14 @@ Proof.
     destruct (xy_dx m (spec_row i) (coord_data bytes)) as [dx| | |] eqn:Edx; cbn [bind] in Hdec; try discriminate.
     destruct (xy_dy m (spec_row i) (coord_data bytes)) as [dy| | |] eqn:Edy; cbn [bind] in Hdec; try discriminate.
     injection Hdec as -> ->. cbn [bind].
-    assert (m = Debug -> i16_ok (p_x p - px) /\ i16_ok (p_y p - py) /\ deltas_ok (p_x p) (p_y p) ps) as Hd'.
-    { intros E. specialize (Hd E). cbn [deltas_ok] in Hd. exact Hd. }
-    rewrite i16_accumulate by (try assumption; intros E; apply (Hd' E)). cbn [bind].
-    rewrite i16_accumulate by (try assumption; intros E; apply (Hd' E)). cbn [bind].
-    rewrite IH by (try assumption; intros E; apply (Hd' E)). cbn [bind].
+    rewrite !i16_accumulate by assumption.
+    rewrite IH by assumption. cbn [bind].
     rewrite Hon. destruct p; reflexivity.
 Qed.
 
 (* ------------------------------------------------------------------ simple glyphs *)
 Lemma decode_simple_glyph_spec : forall m g np_encs fl gl ilen st r_np r_fl r_gl r_ins,
-  simple_ok m g ->
+  simple_ok g ->
   Forall2 encodes_255 np_encs (contour_counts (-1) (sg_end_pts g)) ->
   encodes_points 0 0 (sg_points g) fl gl ->
   encodes_255 ilen (len (sg_instr g)) ->
@@ -205,7 +193,7 @@ Lemma decode_simple_glyph_spec : forall m g np_encs fl gl ilen st r_np r_fl r_gl
            s_comp := s_comp st; s_bbox := s_bbox st; s_ins := r_ins |}).
 Proof.
   intros m g np_encs fl gl ilen st r_np r_fl r_gl r_ins
-         (Hne & Hinc & Hlast & Hnp & Hnc & Hpts & Hdel & Hil & Hib & Hbb) Hnpe Hpe Hie Hfl E1 E2 E3 E4.
+         (Hne & Hinc & Hlast & Hnp & Hnc & Hpts & Hil & Hib & Hbb) Hnpe Hpe Hie Hfl E1 E2 E3 E4.
   unfold decode_simple_glyph. rewrite E1.
   rewrite compute_end_pts_spec by (try assumption; lia). cbn [bind].
   rewrite Hlast, <- Hfl. rewrite E2. rewrite rd_slice_app. cbn [bind].
@@ -325,14 +313,14 @@ Definition st_app (c : contrib) (st : gstreams) : gstreams :=
      s_ins := k_ins c ++ s_ins st |}.
 
 Lemma decode_glyph_spec : forall m g c bitmap i st,
-  encodes_glyph m g c -> bit_get bitmap i = Some (k_bit c) ->
+  encodes_glyph g c -> bit_get bitmap i = Some (k_bit c) ->
   decode_glyph m bitmap i (st_app c st) = Ok (g, st).
 Proof.
   intros m g c bitmap i st H Hbit. destruct st as [nc np fl gl comp bbs ins].
   destruct H as [|g np_encs fl0 gl0 ilen explicit Hok Hnp Hpts Hil Hbb|bb comps instr ilen Hcs Hbb Hib Hil Hi].
   - unfold decode_glyph, st_app. cbn [s_nc s_np s_fl s_gl s_comp s_bbox s_ins k_nc k_np k_fl k_gl k_comp k_bbox k_ins app rd_i16].
     cbn. reflexivity.
-  - pose proof Hok as (Hne & Hinc & Hlast & Hnpl & Hnc & Hp & Hdel & Hilen & Hibytes & Hbox).
+  - pose proof Hok as (Hne & Hinc & Hlast & Hnpl & Hnc & Hp & Hilen & Hibytes & Hbox).
     unfold decode_glyph, st_app.
     cbn [s_nc s_np s_fl s_gl s_comp s_bbox s_ins k_nc k_np k_fl k_gl k_comp k_bbox k_ins k_bit] in *.
     assert (0 < len (sg_end_pts g)) as Hpos.
@@ -389,7 +377,7 @@ Qed.
 (* ------------------------------------------------------------------ all glyphs *)
 Definition st_all (cs : list contrib) (st : gstreams) : gstreams := fold_right st_app st cs.
 
-Lemma decode_glyphs_spec : forall m gs cs, Forall2 (encodes_glyph m) gs cs ->
+Lemma decode_glyphs_spec : forall m gs cs, Forall2 encodes_glyph gs cs ->
   forall bitmap i st,
   (forall j, (j < length cs)%nat ->
      bit_get bitmap (i + Z.of_nat j) = Some (k_bit (nth j cs
@@ -421,18 +409,18 @@ Qed.
 Lemma Forall2_length {A B} (R : A -> B -> Prop) l l' : Forall2 R l l' -> length l = length l'.
 Proof. induction 1; cbn [length]; congruence. Qed.
 
-Lemma read_tglyf_spec : forall m index_format option_flags bm cs,
+Lemma read_tglyf_spec : forall index_format option_flags bm cs,
   bitmap_ok bm (map k_bit cs) -> len cs < 65536 ->
   0 <= index_format < 65536 -> 0 <= option_flags < 4294967296 ->
   len (tglyf_bytes index_format option_flags bm cs) < 4294967296 ->
-  read_tglyf m (tglyf_bytes index_format option_flags bm cs) =
+  read_tglyf (tglyf_bytes index_format option_flags bm cs) =
     Ok {| tg_num_glyphs := len cs; tg_index_format := index_format;
           tg_ncontour := flat_map k_nc cs; tg_npoints := flat_map k_np cs;
           tg_flags := flat_map k_fl cs; tg_glyphs := flat_map k_gl cs;
           tg_composite := flat_map k_comp cs; tg_bitmap := bm;
           tg_bbox := flat_map k_bbox cs; tg_instr := flat_map k_ins cs |}.
 Proof.
-  intros m index_format option_flags bm cs (Hbl & _ & _) Hn Hif Hof Hlen.
+  intros index_format option_flags bm cs (Hbl & _ & _) Hn Hif Hof Hlen.
   unfold tglyf_bytes in *. rewrite !len_app in Hlen. rewrite !len_wr_u32, !len_wr_u16 in Hlen.
   pose proof (len_nonneg cs). pose proof (len_nonneg bm).
   pose proof (len_nonneg (flat_map k_nc cs)). pose proof (len_nonneg (flat_map k_np cs)).
@@ -452,7 +440,7 @@ Proof.
   rewrite rd_slice_app. cbn [bind].
   assert (len (map k_bit cs) = len cs) as Hm by (unfold len; rewrite map_length; reflexivity).
   rewrite Hm in Hbl. rewrite <- Hbl. rewrite rd_slice_app. cbn [bind].
-  unfold usub. replace (len bm <=? len bm + len (flat_map k_bbox cs)) with true by lia. cbn [bind].
+  replace (len bm <=? len bm + len (flat_map k_bbox cs)) with true by lia. cbn [bind].
   replace (len bm + len (flat_map k_bbox cs) - len bm) with (len (flat_map k_bbox cs)) by lia.
   rewrite rd_slice_app. cbn [bind].
   rewrite <- (app_nil_r (flat_map k_ins cs)) at 2. rewrite rd_slice_app. cbn [bind]. reflexivity.
@@ -462,9 +450,10 @@ Qed.
    glyphs (any 255UInt16 forms, any triplet row that fits each delta, bounding boxes explicit or
    omitted when computable, any padding bits in the bitmap, any index format / option flags)
    decodes to exactly those glyphs: contours, points, on-curve flags, instructions, bounding
-   boxes, components. *)
+   boxes, components - in every build (m) and for every pair of int16 coordinates, however wide
+   the delta between two consecutive points. *)
 Theorem glyf_transform_roundtrip : forall m gs bytes,
-  encodes_glyf_table m gs bytes -> read_woff2_glyf m bytes = Ok gs.
+  encodes_glyf_table gs bytes -> read_woff2_glyf m bytes = Ok gs.
 Proof.
   intros m gs bytes (cs & bm & index_format & option_flags & Hgs & Hn & Hbm & Hif & Hof & Hlen & ->).
   pose proof (Forall2_length _ _ _ Hgs) as Hl.
